@@ -25,6 +25,37 @@ claim("C16", "model_checking",
       "Scheduler stub = gevent's cooperative semantics (atomic between blocking calls, set() only makes runnable, kill raises at the blocking point); logging compiled out in the symbolic run; histories longer than the bound are outside.",
       "bounded model checking via SMT-backed symbolic execution (CrossHair/z3) with symbolic schedules", "§4 C16")
 
+claim("C01", "other",
+      "Bounded symbolic execution of the parser's numeric/entity conversion kernels (resolve_entity, replace_html_entities, styleanalyzer.compute_path, "
+      "image-modifier width/upright, parse_params, _ensure_int, <pages from= to=> range generation) on symbolic integers and short strings; any exception or "
+      "work beyond 1000+16*len(input) is a candidate, which only counts after it has been embedded in an article and reproduced through uparser.parse_string.",
+      "Kernels only: the compiled scanner and the 20 regex-driven refinement passes are outside (a symbolic article realizes at the first C call); strings marked 'pinned' are enumerated by the solver, not generalised.",
+      "SMT-backed symbolic execution (CrossHair/z3) of leaf kernels, lifted and replayed through the public parser", "§4 C01")
+claim("C12", "other",
+      "Bounded symbolic execution of NsHandler.splitname per bundled site: free titles (<= 3 chars quick / 4 thorough over separators, bidi marks, letters with non-trivial case "
+      "mappings) and structured spellings lead ':'? NAMESPACE(every local/canonical/alias name, three casings) sep ':' mid rest; oracles: idempotence, canonical "
+      "prefix+remainder form, site's namespace number, spelling invariance against a reference normaliser.",
+      "Title characters are pinned by the solver and then concretised (z3's sequence theory decides strip/replace/regex too slowly): the bounded space is enumerated exhaustively by the solver, without relational generalisation; quick tier covers en+de, thorough all 12 sites.",
+      "SMT-driven exhaustive symbolic execution (CrossHair/z3) with pinned strings, concrete replay", "§4 C12")
+claim("C17", "model_checking",
+      "Bounded model checking by symbolic execution against a reference model of the queue: histories of <= 3 operations over the full alphabet (add, pull, run, finish, kill, tick, "
+      "disconnect, wait, re-add, watchdog), <= 4 over the ordering alphabet, and normal-form prefixes (1 job in any of 11 stages + 2 symbolic operations, 2 jobs + 1) with symbolic "
+      "priorities, timeouts, clock steps and scheduling choices; every rpc_* answer and rpc_qinfo/rpc_getstats snapshot is compared with the reference.",
+      "Reference model and scheduler stub in vlib/stubs/qsim.py are trusted; ordering complaints only count once the better job is later seen to come out of the queue; histories beyond the bound are outside.",
+      "bounded model checking via SMT-backed symbolic execution (CrossHair/z3) against a reference model", "§4 C16-C18")
+claim("C18", "model_checking",
+      "Bounded model checking by symbolic execution: histories with a stop/restart step (state copied through the real __getstate__/__setstate__ protocol) at every position, "
+      "including normal-form prefixes (job queued / handed over / pulled / finished / killed / timed out / dropped) followed by restart and symbolic operations; after the restart the "
+      "conservation, ordering and finality oracles of C16/C17 plus result/error/info persistence, fresh ids and immediate wait are checked.",
+      "pickle is modelled by copy.deepcopy in the symbolic run (same reduce/getstate/setstate protocol); replays use real pickle protocol 2; statistics counters are not part of C18.",
+      "bounded model checking via SMT-backed symbolic execution (CrossHair/z3) with a restart step at every position", "§4 C16-C18")
+claim("C20", "fault_enumeration",
+      "Fault enumeration driven symbolically: the real publish code of Status.dump, ZipCreator.create_zip, make_zip, download_with_retries and render.main runs against a model file "
+      "system; crash step, partial-flush length, injected-error step and errno are z3 integers; after every crash or I/O error the final path must be absent, the previous version or the "
+      "complete new version. Counterexamples are replayed with real files and a real process kill (os._exit at the file-system call).",
+      "Model FS semantics (write buffers in user space, flush/close durable, rename atomic, open('w') truncates) are trusted; zip/PDF writers and the HTTP client are stubs emitting m chunks; no power-loss/fsync reasoning.",
+      "symbolic fault enumeration (CrossHair/z3) over a model file system, real-process replay", "§4 C20")
+
 NA["C02"] = "structure law over the C++ scanner + 20 regex-driven passes: symbolic document shapes degenerate to enumerating concrete documents, no solver-decided bound of interest (DESIGN §5)"
 NA["C08"] = "reportlab / odfpy / pdftk do the essential work (C code, floats, external processes); every input realizes immediately, nothing for a solver to decide (DESIGN §5)"
 NA["C09"] = "protection is done by backtracking regexes in CPython's C re engine (named back-reference, look-behind, lazy quantifiers): unsupported by CrossHair's regex model and by z3's RegLan; a hand-written model would not be the code (DESIGN §5)"
